@@ -20,6 +20,7 @@ template <class T> struct C16Fr : Frustum<T>
 // exposes the protected transposed plane storage of FrustumTest
 template <class T> struct C16Ft : FrustumTest<T>
 {
+    C16Ft () : FrustumTest<T> () {}
     C16Ft (const Frustum<T>& fr, const Matrix44<T>& M) : FrustumTest<T> (fr, M) {}
     using FrustumTest<T>::planeNormX;
     using FrustumTest<T>::planeNormY;
@@ -69,6 +70,54 @@ BOTH (E_SETORTHO)
         Frustum<T> w = fr.window (wl, wr, wt, wb); FRUSTUM_OUT (w); })
 BOTH (E_WINDOW)
 
+// ---------------------------------------------------------------- members no clause names, but which live in the anchored files:
+// operator= (seven unrolled field copies), the copy constructor (= operator=), the default constructor (constants 0.1, 1000, -+1),
+// operator== / != (seven-way && chain), hither () / yon ()
+#define E_COPY(k, O)                                                                                    \
+    EXTRACT ("C16Frustum", assign_##k, "Frustum.assign_" #k, {                                          \
+        FRUSTUM_IN (O); Frustum<T> g (T (9), T (8), T (7), T (6), T (5), T (4), !(O)); g = fr; FRUSTUM_OUT (g); })                 \
+    EXTRACT ("C16Frustum", copyCtor_##k, "Frustum.copyCtor_" #k, { FRUSTUM_IN (O); const Frustum<T>& src = fr; Frustum<T> g (src); FRUSTUM_OUT (g); }) \
+    EXTRACT ("C16Frustum", hitherYon_##k, "Frustum.hitherYon_" #k, { FRUSTUM_IN (O); c.outS (fr.hither ()); c.outS (fr.yon ()); })
+BOTH (E_COPY)
+EXTRACT ("C16Frustum", defaultCtor, "Frustum.defaultCtor", { Frustum<T> g; FRUSTUM_OUT (g); })
+#define FRUSTUM_IN2(ORTHO)                                                                              \
+    T n2 = c.inS ("n2"); T f2 = c.inS ("f2"); T l2 = c.inS ("l2"); T r2 = c.inS ("r2"); T t2 = c.inS ("t2"); T b2 = c.inS ("b2"); \
+    Frustum<T> fr2 (n2, f2, l2, r2, t2, b2, ORTHO);
+#define E_EQ(id, O1, O2)                                                                                \
+    EXTRACT ("C16Frustum", eq_##id, "Frustum.eq_" #id, { FRUSTUM_IN (O1); FRUSTUM_IN2 (O2); c.outB (fr == fr2); c.outB (fr != fr2); })
+E_EQ (persp_persp, false, false) E_EQ (ortho_ortho, true, true) E_EQ (persp_ortho, false, true) E_EQ (ortho_persp, true, false)
+
+// ---------------------------------------------------------------- ZToDepth at concrete integer arguments (T (long) is a literal):
+// in range, zmax + 1 (NOT wrapped), zmax + 2 (wrapped), negative zmin, and the 32-bit z-buffer range [0, 2^32 - 1]
+#define E_ZTD(k, O)                                                                                     \
+    EXTRACT ("C16Frustum", ztd_5_0_10_##k, "Frustum.ZToDepth_" #k "_5_0_10", { FRUSTUM_IN (O); c.outS (fr.ZToDepth (5, 0, 10)); })          \
+    EXTRACT ("C16Frustum", ztd_11_0_10_##k, "Frustum.ZToDepth_" #k "_11_0_10", { FRUSTUM_IN (O); c.outS (fr.ZToDepth (11, 0, 10)); })       \
+    EXTRACT ("C16Frustum", ztd_12_0_10_##k, "Frustum.ZToDepth_" #k "_12_0_10", { FRUSTUM_IN (O); c.outS (fr.ZToDepth (12, 0, 10)); })       \
+    EXTRACT ("C16Frustum", ztd_m3_m10_10_##k, "Frustum.ZToDepth_" #k "_m3_m10_10", { FRUSTUM_IN (O); c.outS (fr.ZToDepth (-3, -10, 10)); }) \
+    EXTRACT ("C16Frustum", ztd_w32_##k, "Frustum.ZToDepth_" #k "_w32", { FRUSTUM_IN (O); c.outS (fr.ZToDepth (4294967295L, 0, 4294967295L)); })
+BOTH (E_ZTD)
+
+// ---------------------------------------------------------------- DepthToZ: the real body with `long (x)` observable (sym_c16.cpp).
+// Outputs: x = 0.5 * (Zp + 1) * zdiff as computed by the REAL body, the integer (result - long (x)) (= zmin), the number of casts,
+// and (TV only; 0 at Sym) the difference to Frustum<double>::DepthToZ on the same input.
+// TV at double only (at float the real body mixes float and double; c16_corr compares DepthToZ itself at both types).
+#define EXTRACT_D(module, ident, leanname, ...)                                                        \
+    struct X_##ident { template <class T> static void run (symns::Ctx<T>& c) __VA_ARGS__ };              \
+    static int reg_##ident = (symns::entries ().push_back (symns::Entry{module, leanname, symns::Opts (), &X_##ident::run<symns::Sym>, \
+        {{"double", symns::makeTV<double> (&X_##ident::run<double>)}}, symns::makeRun (&X_##ident::run<double>)}), 0);
+#define E_DTZ(k, O)                                                                                     \
+    EXTRACT_D ("C16Frustum", dtz_##k, "Frustum.DepthToZ_" #k "_3_10", {                                   \
+        T n = c.inS ("n"); T f = c.inS ("f"); T l = c.inS ("l"); T r = c.inS ("r"); T t = c.inS ("t"); T b = c.inS ("b"); \
+        T depth = c.inS ("depth");                                                                      \
+        typedef typename C16Long<T>::S S;                                                               \
+        Frustum<S> fr (S (n), S (f), S (l), S (r), S (t), S (b), O);                                     \
+        C16Long<T>::reset ();                                                                           \
+        long z = fr.DepthToZ (S (depth), 3, 10);                                                        \
+        T    x = C16Long<T>::last ();                                                                   \
+        c.outS (x); c.outI (z - C16Long<T>::trunc (x)); c.outI (C16Long<T>::count ());                 \
+        c.outI (C16Long<T>::vsPlainDouble (n, f, l, r, t, b, O, depth, 3, 10, z)); })
+BOTH (E_DTZ)
+
 // ---------------------------------------------------------------- projection
 #define E_PROJ(k, O)                                                                                    \
     EXTRACT ("C16Frustum", projectionMatrix_##k, "Frustum.projectionMatrix_" #k, { FRUSTUM_IN (O); c.out (fr.projectionMatrix ()); }) \
@@ -80,6 +129,10 @@ BOTH (E_WINDOW)
     EXTRACT ("C16Frustum", screenRadius_##k, "Frustum.screenRadius_" #k, { FRUSTUM_IN (O); IN (Vec3, p); T radius = c.inS ("radius"); c.outS (fr.screenRadius (p, radius)); }) \
     EXTRACT ("C16Frustum", worldRadius_##k, "Frustum.worldRadius_" #k, { FRUSTUM_IN (O); IN (Vec3, p); T radius = c.inS ("radius"); c.outS (fr.worldRadius (p, radius)); })
 BOTH (E_PROJ)
+
+// Vec3 * Matrix44 as used by the projection clauses: Props/C16.lean states them with Gen.V3.mulM44 (module Gen/C05, regenerated by the
+// C05 check); this entry re-extracts the operator in THIS check and a `rfl` theorem identifies the two
+EXTRACT ("C16Frustum", v3mulm44, "Frustum.V3mulM44", { IN (Vec3, v); IN (Matrix44, m); c.out (v * m); })
 
 // ---------------------------------------------------------------- planes (p): six planes, order top,right,bottom,left,near,far
 #define E_PLANES(k, O)                                                                                  \
@@ -111,3 +164,19 @@ BOTH (E_PLANES)
     EXTRACT ("C16Test", ft_containsBox_##k, "FrustumTest.completelyContainsBox_" #k, {                    \
         FRUSTUM_IN (O); IN (Matrix44, M); auto bx = c.template in<Box<Vec3<T>>> ("bx"); FrustumTest<T> ft (fr, M); c.outB (ft.completelyContains (bx)); })
 BOTH (E_FT)
+// the two stores at the end of setFrustum (currFrustum, cameraMatrix) through their accessors, and the default constructor
+#define FT_STORAGE_OUT(ft)                                                                              \
+    { Vec3<T> zero (0, 0, 0);                                                                           \
+      for (int i = 0; i < 2; ++i) c.out (ft.planeNormX[i]);                                              \
+      for (int i = 0; i < 2; ++i) c.out (ft.planeNormY[i]);                                              \
+      for (int i = 0; i < 2; ++i) c.out (ft.planeNormZ[i]);                                              \
+      for (int i = 0; i < 2; ++i) c.out (ft.planeOffsetVec[i]);                                          \
+      for (int i = 0; i < 2; ++i) c.out (ft.planeNormAbsX[i] + zero);                                    \
+      for (int i = 0; i < 2; ++i) c.out (ft.planeNormAbsY[i] + zero);                                    \
+      for (int i = 0; i < 2; ++i) c.out (ft.planeNormAbsZ[i] + zero); }
+#define E_FTSTORE(k, O)                                                                                 \
+    EXTRACT ("C16Test", ft_stores_##k, "FrustumTest.stores_" #k, {                                       \
+        FRUSTUM_IN (O); IN (Matrix44, M); FrustumTest<T> ft (fr, M); FRUSTUM_OUT (ft.currentFrustum ()); c.out (ft.cameraMat ()); })
+BOTH (E_FTSTORE)
+EXTRACT ("C16Test", ft_defaultCtor, "FrustumTest.defaultCtor", {
+    C16Ft<T> ft; FRUSTUM_OUT (ft.currentFrustum ()); c.out (ft.cameraMat ()); FT_STORAGE_OUT (ft); })
